@@ -74,3 +74,8 @@
                 assert(b * (-(x / b)) == -(b * (x / b))) by (nonlinear_arith);
             }
         }
+
+        /// ghost observations for asm blocks (C09/C02): value and stability of the most recent inner pass that
+        /// ran with guessing forbidden (recorded by eval_asm::resolve_once's stub contract)
+        pub uninterp spec fn asm_strict_value(r: &diagn::Report) -> expr::Value;
+        pub uninterp spec fn asm_strict_stable(r: &diagn::Report) -> bool;
